@@ -222,6 +222,36 @@ theorem filter_spatial_events (c : Cat) (region : Option Region) (us ip : Bool) 
     · cases us <;> simp [Cat.setEvents]
     · cases us <;> simp [Cat.setEvents]
 
+/-- **the region argument wins over the binding** (the two-step cut collection region → testing region, or one catalog re-used
+for several regions): a catalog ALREADY bound to a region `A` and filtered with another region `B` is cut with `B` — the
+returned catalog holds exactly the events `B`'s partition puts in a cell, whatever `A` is — and both the catalog and the result
+are bound to `B` afterwards, in every mode; a later call without argument then uses `B`. -/
+theorem filter_spatial_argument_wins (c : Cat) (A B : Region) (hA : c.region = some A) (hB : B.Built) (us ip us' ip' : Bool) :
+    ∃ c' out, c.filterSpatialOp (some B) us ip = .ok (c', out) ∧
+      out.events = c.events.filter (fun p => (B.cellOf p).isSome) ∧ out.region = some B ∧ c'.region = some B ∧
+      ∃ c'' out', c'.filterSpatialOp none us' ip' = .ok (c'', out') ∧
+        out'.events = c'.events.filter (fun p => (B.cellOf p).isSome) := by
+  obtain ⟨c', out, h, hev, hro, hrc, _, _⟩ := filter_spatial_events c (some B) us ip B rfl hB
+  refine ⟨c', out, h, hev, hro, hrc, ?_⟩
+  have hR' : c'.effRegion none = some B := by simp [Cat.effRegion, hrc]
+  obtain ⟨c'', out', h2, hev2, _, _, _, _⟩ := filter_spatial_events c' none us' ip' B hR' hB
+  exact ⟨c'', out', h2, hev2⟩
+
+/-- sessions on shared objects: a call on one catalog returns catalogs bound to the very region value that was effective and
+reads nothing but that catalog — stated on the model: the result depends on the catalog's events and on the effective region
+only (two catalogs with the same events and the same effective region get the same events back, whatever they were bound to
+before, whatever their statistics and flags) -/
+theorem filter_spatial_depends_only_on (c d : Cat) (rc rd : Option Region) (us ip us' ip' : Bool) (R : Region) (hB : R.Built)
+    (hc : c.effRegion rc = some R) (hd : d.effRegion rd = some R) (hev : c.events = d.events)
+    (c' oc d' od : Cat) (h1 : c.filterSpatialOp rc us ip = .ok (c', oc)) (h2 : d.filterSpatialOp rd us' ip' = .ok (d', od)) :
+    oc.events = od.events := by
+  obtain ⟨c1, o1, e1, v1, _⟩ := filter_spatial_events c rc us ip R hc hB
+  obtain ⟨d1, p1, e2, v2, _⟩ := filter_spatial_events d rd us' ip' R hd hB
+  rw [e1] at h1; rw [e2] at h2
+  obtain ⟨_, rfl⟩ := Prod.mk.inj (Except.ok.inj h1)
+  obtain ⟨_, rfl⟩ := Prod.mk.inj (Except.ok.inj h2)
+  rw [v1, v2, hev]
+
 /-- no region given and none bound: CSEPCatalogException, nothing changes -/
 theorem filter_spatial_no_region (c : Cat) (us ip : Bool) (h : c.region = none) :
     c.filterSpatialOp none us ip = .error .noRegion := by
